@@ -211,13 +211,23 @@ pub open spec fn small(cs: Seq<Vec<Literal>>) -> bool {
 pub open spec fn same_lits(a: Seq<Literal>, b: Seq<Literal>) -> bool {
     forall|l: Literal| #![trigger a.contains(l)] #![trigger b.contains(l)] a.contains(l) == b.contains(l)
 }
+/// literals in non-decreasing order of their labels
+pub open spec fn sorted_by_label(c: Seq<Literal>) -> bool { forall|j: int, k: int| 0 <= j <= k < c.len() ==> (#[trigger] c[j]).lbl.0 <= (#[trigger] c[k]).lbl.0 }
+/// the normal form Cnf::new gives every clause: sorted by label, no two NEIGHBOURS equal.  (A literal may still occur twice -- the
+/// sort key is the label only, so `x, !x, x` stays as it is -- but then its negation sits in between.)
+pub open spec fn norm1(c: Seq<Literal>) -> bool { sorted_by_label(c) && forall|j: int| 0 <= j < c.len() - 1 ==> (#[trigger] c[j]) != c[j + 1] }
+pub open spec fn norm_lits(cs: Seq<Vec<Literal>>) -> bool { forall|i: int| 0 <= i < cs.len() ==> norm1((#[trigger] cs[i])@) }
 #[verifier::external_body]
 pub fn verif_sort_by_key(v: &mut Vec<Literal>)
     ensures same_lits(final(v)@, old(v)@), forall|j: int| 0 <= j < final(v)@.len() ==> old(v)@.contains(#[trigger] final(v)@[j]),
+        sorted_by_label(final(v)@),
 { unimplemented!() }
 #[verifier::external_body]
 pub fn verif_dedup(v: &mut Vec<Literal>)
     ensures same_lits(final(v)@, old(v)@), forall|j: int| 0 <= j < final(v)@.len() ==> old(v)@.contains(#[trigger] final(v)@[j]),
+        // removes repeated NEIGHBOURS and keeps the order of what remains
+        sorted_by_label(old(v)@) ==> sorted_by_label(final(v)@),
+        forall|j: int| 0 <= j < final(v)@.len() - 1 ==> (#[trigger] final(v)@[j]) != final(v)@[j + 1],
 { unimplemented!() }
 pub proof fn lemma_same_lits_true(a: Seq<Literal>, b: Seq<Literal>, asg: Seq<bool>)
     requires same_lits(a, b),
@@ -317,8 +327,9 @@ impl Cnf {
     //   R-max: `xs.iter().map(|x| F).max().unwrap_or(0)` over unsigned values -> `{ let mut m = 0; for x in xs.iter() { let y = F; if y > m { m = y; } } m }`
     //   (twice, nested); the `hasher:` field initialiser is dropped with the field (R-hasher).
     // A-std-sort-dedup: `clause.sort_by_key(..)` and `clause.dedup()` are std code without a Verus specification; they are the stubs
-    // verif_sort_by_key / verif_dedup, which promise only that the vector keeps exactly its SET of elements (true of any sort and of
-    // removing repeated neighbours) -- nothing about the order.
+    // verif_sort_by_key / verif_dedup, which promise that the vector keeps exactly its SET of elements and, for the normal form the
+    // solver's watch scheme relies on, the documented std semantics: the sort orders by the key (the label), dedup leaves no two equal
+    // neighbours and keeps the order of what remains.  Nothing is assumed about the relative order of literals with equal labels.
 //%% extract src/repr/cnf.rs :: impl Cnf :: fn new
 //%% @attr #[verifier::loop_isolation(false)]
 //%% @ret r
@@ -337,6 +348,8 @@ impl Cnf {
             // normalisation keeps the meaning of every clause, hence of the formula
             r.clauses.len() == clauses.len(),
             forall|a: Seq<bool>| #[trigger] cnf_true(r.clauses@, a) == cnf_true(clauses@, a),
+            // every clause is sorted by label with no two equal neighbours (what the watch scheme of the solver relies on)
+            norm_lits(r.clauses@),
 //%% @entry
         let ghost cls0 = clauses@;
         proof {
@@ -348,6 +361,7 @@ impl Cnf {
                 mc__out@.len() == mc__it.index@, mc__it.index@ <= cls0.len(),
                 forall|k: int| #![trigger mc__out@[k]] #![trigger cls0[k]] 0 <= k < mc__out@.len() ==> same_lits(mc__out@[k]@, cls0[k]@),
                 small(mc__out@),
+                norm_lits(mc__out@),
 //%% @loop 2 /^for clause in mx__it: clauses\.iter\(\)$/
             invariant
                 forall|k: int, j: int| 0 <= k < mx__it.index@ && 0 <= j < clauses@[k].len() ==> (#[trigger] clauses@[k][j]).lbl.0 < mx__o,
